@@ -10,12 +10,15 @@ def run(tier, seed):
     from contracts import bitbuffer, leaf
     from pyvc.harness import run_cases
 
-    rep.add_case_results(run_cases(leaf.specs(("weak",), tier) + bitbuffer.weak_specs()), "T1")
+    arr = [sp for sp in leaf.array_specs(tier) if sp[1] != "make_array" or sp[2][2] in ("read_array_n", "read_array_eof", "read_0")]
+    rep.add_case_results(run_cases(leaf.specs(("weak",), tier) + bitbuffer.weak_specs() + arr), "T1")
     progs = programs_for(tier, seed)
     run_pipeline(rep, progs, ["C08"])
     rep.extra["explanation"] = (
         "T1 (weak stream contract: read(n) may deliver any 0..n bytes or raise): every leaf reader and BitBuffer.read return only if "
-        "every read delivered exactly what was asked, raise EOFError on a short delivery and let a stream fault propagate; T2 per "
+        "every read delivered exactly what was asked, raise EOFError on a short delivery and let a stream fault propagate; the array entry "
+        "points (_read_array with a symbolic count, [EOF], null-terminated) return only when count*size bytes (resp. a terminator) were "
+        "available and raise EOFError otherwise; T2 per "
         "definition: no short read is accepted on a returning path, a premature end is signalled as EOFError, and for L' >= L (a longer "
         "input sharing the prefix) the path condition still holds and the value terms do not depend on the length ([EOF] arrays aside)"
     )
